@@ -125,6 +125,32 @@ def ghost_specs():
     # whole-file sample sequence of a PSRFITS file (C18): time-major, descending frequency, calibrated
     PXF = z3.Function("PX", INT, REAL)
     S["PX"] = GhostSpec("PX", lambda e, st, a: VReal(PXF(smt.som(e.to_int(a[0])))))
+    # C14: symmetric padding and moving window functions (same terms as the numpy / bottleneck models)
+    def sympad(e, st, a):
+        from .models import sympad_term
+        return VOpaqueArr(sympad_term(e, st, a[0], e.to_int(a[1])))
+
+    def movef(e, st, a):
+        from .models import move_fn
+        return VReal(move_fn(a[0].s)(a[1].t, smt.som(e.to_int(a[2])), e.to_int(a[3])))
+    # C16: outlier flag of channel c under a named method (uninterpreted)
+    OUTL = z3.Function("outlier", z3.StringSort(), z3.ArraySort(INT, REAL), REAL, INT, BOOL)
+    S["outlier"] = GhostSpec("outlier", lambda e, st, a: VBool(OUTL(a[0].t if a[0].s is None else z3.StringVal(a[0].s), a[1].t,
+                                                                    e.to_real(a[2]), smt.som(e.to_int(a[3])))))
+    # C05: byte strings (pvc/bytesmodel.py)
+    def _bm():
+        from . import bytesmodel
+        return bytesmodel
+    S["cat"] = GhostSpec("cat", lambda e, st, a: _bm().VBytes(z3.Concat(*[x.t for x in a]) if len(a) > 1 else a[0].t))
+    S["packI"] = GhostSpec("packI", lambda e, st, a: _bm().pack_term(e, st, "I", a[0], check=False))
+    S["packD"] = GhostSpec("packD", lambda e, st, a: _bm().pack_term(e, st, "d", a[0], check=False))
+    S["packB"] = GhostSpec("packB", lambda e, st, a: _bm().pack_term(e, st, "b", a[0], check=False))
+    S["unpackI"] = GhostSpec("unpackI", lambda e, st, a: VInt(_bm().UNPACK["I"](a[0].t)))
+    S["enc"] = GhostSpec("enc", lambda e, st, a: _bm().enc_term(e, st, a[0]))
+    S["dec"] = GhostSpec("dec", lambda e, st, a: VStr(None, _bm().DEC(a[0].t)))
+    S["sub"] = GhostSpec("sub", lambda e, st, a: _bm().VBytes(z3.SubString(a[0].t, e.to_int(a[1]), e.to_int(a[2]))))
+    S["sympad"] = GhostSpec("sympad", sympad)
+    S["movef"] = GhostSpec("movef", movef)
     S["dec16"] = GhostSpec("dec16", lambda e, st, a: VReal(DEC16(a[0].t, a[1].t)))
     S["dec32"] = GhostSpec("dec32", lambda e, st, a: VReal(DEC32(a[0].t, a[1].t, a[2].t, a[3].t)))
     return S
